@@ -21,6 +21,7 @@ from .dsl import Builder, Contract, Lemma
 
 NATIVE_PY = os.environ.get('PVC_NATIVE_PY', '/venv/bin/python')
 MAX_PATHS = 400
+EXPLORE_BUDGET_S = 240
 
 
 class Obligation:
@@ -220,13 +221,20 @@ class Engine:
         work = [[]]
         out = []
         n = 0
+        # wall-clock budget of one exploration: code that makes the symbolic
+        # execution crawl (e.g. a data-dependent loop over solver-heavy
+        # branches) is handed to the bounded stand-in instead of hanging
+        deadline = time.time() + (EXPLORE_BUDGET_S if self.tier == 'quick' else 4 * EXPLORE_BUDGET_S)
         while work:
             prefix = work.pop()
             ctx = Ctx(prefix)
+            ctx.deadline = deadline
             it.set_ctx(ctx)
             n += 1
             if n > MAX_PATHS:
                 raise Unsupported('more than %d paths' % MAX_PATHS)
+            if time.time() > deadline:
+                raise Unsupported('exploration time budget exceeded')
             try:
                 pr = run(ctx)
             except PathAbort:
@@ -268,6 +276,8 @@ class Engine:
             shapes = c.shapes_thorough
         for cfg in shape_configs(shapes):
             try:
+                if getattr(c, 'native_only', False):
+                    raise Unsupported('declared bounded (size beyond the symbolic budget)')
                 if os.environ.get('PVC_STANDIN_ONLY'):
                     # diagnostic mode (tools/standin_audit.py): behave as if
                     # the code had left the modelled subset, to see what the
@@ -825,7 +835,10 @@ class Engine:
         evaluated at random inputs must agree with CPython running the real
         function."""
         n = 20 if self.tier == 'quick' else 200
-        if native_only:
+        declared = getattr(c, 'native_only', False)
+        if declared:
+            n = 8 if self.tier == 'quick' else 60       # per declared size
+        elif native_only:
             n *= 3
         rng = random.Random(self.seed * 7919 + _stable_hash(c.name))
         asgs = [self.sample_assignment(specs, rng) for _ in range(n)]
@@ -836,7 +849,7 @@ class Engine:
             asgs += [self.sample_assignment(specs, rng) for _ in range(n)]
             # and, where the precondition is not a box, let the solver
             # complete partially pinned random points into models of it
-            if isinstance(c, Contract) and c.requires:
+            if isinstance(c, Contract) and c.requires and not declared:
                 try:
                     asgs += self._solver_samples(c, cfg, specs, n, rng)
                 except Exception as e:
@@ -941,7 +954,11 @@ class Engine:
             if r.get('outcome') == 'return':
                 for (lb, text), v in zip(c.ensures if isinstance(c, Contract) else c.prove,
                                          r.get('clauses', [])):
-                    if v is False:
+                    # stand-in only: a clause that cannot even be evaluated
+                    # on what the real code returned (missing key, wrong
+                    # shape ...) fails; with symbolic paths at hand such an
+                    # error is a contract problem and is left to the proof
+                    if v is False or (not paths and isinstance(v, str) and v.startswith('error')):
                         self.native_clause_failures.append(
                             (c, cfg, specs, lb, text, a, r))
             elif not paths and isinstance(c, Contract) and \
